@@ -38,6 +38,8 @@ pub enum Op {
     StepByTake(usize, usize),
     SkipNext(usize),
     ForEachPanic(usize),
+    All(usize),
+    Any(usize),
     // consuming
     Fold,
     Rfold,
@@ -49,7 +51,15 @@ pub enum Op {
     Skip(usize),
     SkipRev(usize),
     EnumerateRev,
-    MinMax,
+    Max,
+    Min,
+    MaxBy,
+    MinBy,
+    MaxByKey,
+    MinByKey,
+    Reduce,
+    ForEach,
+    IsSorted,
     FoldPanic(usize),
     RfoldPanic(usize),
     // stand-alone
@@ -118,7 +128,17 @@ impl Op {
             Skip(n) => format!("Sk{}", us(*n)),
             SkipRev(n) => format!("Sr{}", us(*n)),
             EnumerateRev => "Er".into(),
-            MinMax => "Mm".into(),
+            Max => "Mx".into(),
+            Min => "Mn".into(),
+            MaxBy => "Mb".into(),
+            MinBy => "Nb".into(),
+            MaxByKey => "Mk".into(),
+            MinByKey => "Nk".into(),
+            Reduce => "Re".into(),
+            ForEach => "Fe".into(),
+            IsSorted => "Is".into(),
+            All(k) => format!("al{}", us(*k)),
+            Any(k) => format!("an{}", us(*k)),
             FoldPanic(k) => format!("Fp{}", us(*k)),
             RfoldPanic(k) => format!("Gp{}", us(*k)),
             Zip(k, m) => format!("Z{},{}", us(*k), m),
@@ -157,7 +177,17 @@ impl Op {
                 "Sk" => parse_us(t).map(Skip),
                 "Sr" => parse_us(t).map(SkipRev),
                 "Er" if t.is_empty() => Some(EnumerateRev),
-                "Mm" if t.is_empty() => Some(MinMax),
+                "Mx" if t.is_empty() => Some(Max),
+                "Mn" if t.is_empty() => Some(Min),
+                "Mb" if t.is_empty() => Some(MaxBy),
+                "Nb" if t.is_empty() => Some(MinBy),
+                "Mk" if t.is_empty() => Some(MaxByKey),
+                "Nk" if t.is_empty() => Some(MinByKey),
+                "Re" if t.is_empty() => Some(Reduce),
+                "Fe" if t.is_empty() => Some(ForEach),
+                "Is" if t.is_empty() => Some(IsSorted),
+                "al" => parse_us(t).map(All),
+                "an" => parse_us(t).map(Any),
                 "Fp" => parse_us(t).map(FoldPanic),
                 "Gp" => parse_us(t).map(RfoldPanic),
                 _ => None,
@@ -207,7 +237,15 @@ impl Op {
                 | Skip(_)
                 | SkipRev(_)
                 | EnumerateRev
-                | MinMax
+                | Max
+                | Min
+                | MaxBy
+                | MinBy
+                | MaxByKey
+                | MinByKey
+                | Reduce
+                | ForEach
+                | IsSorted
                 | FoldPanic(_)
                 | RfoldPanic(_)
         )
@@ -225,7 +263,7 @@ impl Op {
         match self {
             NewRange(a, b) => vec![*a, *b],
             Nth(k) | NthBack(k) | TakeCollect(k) | RevTakeCollect(k) | TryFold(k) | TryRfold(k)
-            | Find(k) | Rfind(k) | Position(k) | Rposition(k) | SkipNext(k) | ForEachPanic(k)
+            | Find(k) | Rfind(k) | Position(k) | Rposition(k) | SkipNext(k) | ForEachPanic(k) | All(k) | Any(k)
             | StepBy(k) | Skip(k) | SkipRev(k) | FoldPanic(k) | RfoldPanic(k) => vec![*k],
             StepByTake(a, b) => vec![*a, *b],
             Zip(k, m) => vec![*k, *m as usize],
@@ -249,6 +287,8 @@ impl Op {
             Rposition(_) => Rposition(a[0]),
             SkipNext(_) => SkipNext(a[0]),
             ForEachPanic(_) => ForEachPanic(a[0]),
+            All(_) => All(a[0]),
+            Any(_) => Any(a[0]),
             StepBy(_) => StepBy(a[0].max(1)),
             Skip(_) => Skip(a[0]),
             SkipRev(_) => SkipRev(a[0]),
@@ -476,7 +516,7 @@ fn rem_after(op: &Op, rem: usize) -> usize {
         Next | NextBack => rem.saturating_sub(1),
         Nth(k) | NthBack(k) | SkipNext(k) => rem - rem.min(k.saturating_add(1)),
         TakeCollect(k) | RevTakeCollect(k) | TryFold(k) | TryRfold(k) | Find(k) | Rfind(k)
-        | Position(k) | Rposition(k) | ForEachPanic(k) => rem - rem.min(*k),
+        | Position(k) | Rposition(k) | ForEachPanic(k) | All(k) | Any(k) => rem - rem.min(*k),
         StepByTake(s, k) => {
             if *k == 0 {
                 rem
@@ -570,7 +610,9 @@ pub fn generate(rng: &mut Rng, caps: Caps, prop: Prop) -> (Vec<Event>, Profile) 
             }
             3 => {
                 let k = small_boundary(rng, rem);
-                match rng.below(10) {
+                match rng.below(12) {
+                    10 => Op::All(k),
+                    11 => Op::Any(k),
                     0 => Op::TakeCollect(boundary(rng, rem)),
                     1 => Op::RevTakeCollect(boundary(rng, rem)),
                     2 => Op::TryFold(k),
@@ -591,7 +633,16 @@ pub fn generate(rng: &mut Rng, caps: Caps, prop: Prop) -> (Vec<Event>, Profile) 
                     _ => Op::SkipNext(boundary(rng, rem)),
                 }
             }
-            4 => match rng.below(11) {
+            4 => match rng.below(19) {
+                10 => Op::Max,
+                11 => Op::Min,
+                12 => Op::MaxBy,
+                13 => Op::MinBy,
+                14 => Op::MaxByKey,
+                15 => Op::MinByKey,
+                16 => Op::Reduce,
+                17 => Op::ForEach,
+                18 => Op::IsSorted,
                 0 => Op::Fold,
                 1 => Op::Rfold,
                 2 => Op::Last,
@@ -605,8 +656,7 @@ pub fn generate(rng: &mut Rng, caps: Caps, prop: Prop) -> (Vec<Event>, Profile) 
                 }),
                 7 => Op::Skip(boundary(rng, rem)),
                 8 => Op::SkipRev(boundary(rng, rem)),
-                9 => Op::EnumerateRev,
-                _ => Op::MinMax,
+                _ => Op::EnumerateRev,
             },
             5 => {
                 let k = small_boundary(rng, rem).max(1);
